@@ -15,6 +15,8 @@ def run(rep: Report, tier: str, only=None) -> None:
 	for cfg in range(3):
 		for c in class_splits(['ab', 's', 'r', 'c', '.'], 1, 4 if thorough else 3):
 			jobs.append(Job('O3.paths', H, 'path_law', {'config': cfg, **c}, t, 'S', f'two module paths <= {4 if thorough else 3} over [ab | s | r | c | .] (dotted, distinct) under output_dirs configuration #{cfg} of 3 (fallback only; prefix rule; two prefix rules)', ()))
+	for row in range(4):
+		jobs.append(Job('O3.elem_paths', H, 'elem_paths_law', {'row': row}, t, 'F', 'two module paths out of 45 element sequences (<= 4 elements of [s, x, u] under the rule folder s, plus 5 outside it), all pairs, under 2 output_dirs configurations', ('rule_folder_recurs',)))
 	if only:
 		jobs = [j for j in jobs if j.obligation in only or j.obligation.split('.')[0] in only]
 	rep.functions = ['MetaHeader.to_header_str/to_json/try_from_content/from_json/__eq__/identity', 'data/cpp/template/block/entrypoint.j2 (first line, read at run time)', 'Runner.can_transpile/try_load_meta_header/output_filepath/fetch_output_path']
